@@ -57,6 +57,11 @@ function walk (a, b, path, out, anc) {
     }
     return
   }
+  // the operand of `delete` must stay a reference: a lowered optional chain is a value
+  if (a.type === 'UnaryExpression' && a.operator === 'delete' && b.type === 'UnaryExpression' && isObj(b.argument) && b.argument.$guard) {
+    out.mismatches.push({ path, why: 'operand of delete replaced by the guarded value form of its optional chain', a: brief(a), b: brief(b), anc: ancTypes(anc) })
+    return
+  }
   if (a.type !== b.type) { out.mismatches.push({ path, why: `node type ${a.type} vs ${b.type}`, a: brief(a), b: brief(b), anc: ancTypes(anc) }); return }
   const keys = new Set()
   for (const k of Object.keys(a)) if (k[0] !== '$') keys.add(k)
